@@ -455,6 +455,9 @@ def build(spec, world, mode, keep=None):
         return Mutator(world, spec['id'], spec['mode'], spec.get('on'))
     if t == 'exc':
         return EXC[spec['n']]
+    if t == 'tainted':
+        from AccessControl.tainted import TaintedString
+        return TaintedString(spec['v'])
     if t == 'cmpf':
         # a comparison function of the author's (sort="key/name")
         sign = spec.get('sign', 1)
